@@ -48,7 +48,11 @@ ModesOf(P) == IF Cardinality(P) <= 3 THEN SUBSET P ELSE {{}} \cup {{f} : f \in P
 \* (dead: its counter prediction explains nothing any more)
 Recovery(w) == [s |-> [w.s EXCEPT !.ref = [k \in KeyNames |-> WildRef], !.junk = FALSE], lk |-> w.lk, dead |-> TRUE]
 
-MinMode(S) == CHOOSE m \in S : \A m2 \in S : Cardinality(m) <= Cardinality(m2)
+\* the smallest set of findings that explains an observation; among equally small ones, one made of LISTED known
+\* findings only is preferred (an observation that a listed finding alone explains is that known finding)
+CONSTANT Listed
+MinMode(S) == LET best == {m \in S : \A m2 \in S : Cardinality(m) <= Cardinality(m2)} IN
+              IF \E m \in best : m \subseteq Listed THEN CHOOSE m \in best : m \subseteq Listed ELSE CHOOSE m \in best : TRUE
 
 TrReset ==
   /\ IsEv("Reset") /\ Adv
